@@ -162,7 +162,7 @@ def check_model(text, rng, want=8, tier="quick", remove_unused=False):
                     "symbolic_stage": C.sympy_stage(ode, dn, pt),
                 }
                 detail["root_cause"] = localise(mod, ref, pt, res, dn)
-                v = {"kind": "value", "detail": detail}
+                v = {"kind": "value", "detail": detail, "_point": dict(pt)}
                 if first is None or len(out["violations"]) < 6:
                     out["violations"].append(v)
                 first = detail
@@ -253,6 +253,7 @@ def run_case(spec, ctx):
             F.classify(ID, v, text=v["text"], features=feats, **v.pop("_cls", {}))
         else:
             F.classify(ID, v, text=text, features=feats, code=out.get("code"), ode=cx.get("ode"), ref=cx.get("ref"), recheck=recheck_fn(cx))
+        v.pop("_point", None)
     out["hash"] = models.structural_hash(text)
     out["model_text"] = text if (out["violations"] or spec["klass"] != "corpus") else None
     out["counters"]["constructs"] = {**{"f:" + k: v for k, v in feats["funcs"].items()}, **{"op:" + k: v for k, v in feats["ops"].items()}, **feats["bool_arity"]}
